@@ -275,6 +275,8 @@ pub fn obl_action_position(s: &mut Src, ctx: &mut Ctx, df18: bool, track_some: b
     let both = slots[0].is_some() && slots[1].is_some();
     let (gpc, gpa, hvc, hva) = unsafe { (GP_CALLS, GP_ARGS, HV_CALLS, HV_ARGS) };
     let pc = &post.coords;
+    vcover!(both && gp.is_some() && hv[0] <= range, "cover: a publication");
+    vcover!(both && gp.is_none(), "cover: an inconsistent pair");
     // `level` is a concrete bit mask selecting clause groups (1 single-slot, 2 pairing / publication,
     // 4 invariant + untouched attributes, 8 track contents), so that each CBMC run stays small
     if !both {
@@ -337,8 +339,6 @@ pub fn obl_action_position(s: &mut Src, ctx: &mut Ctx, df18: bool, track_some: b
     }
     // everything else untouched
     vcheck!(ctx, post.callsign == pre.callsign && post.vert_speed == pre.vert_speed && post.squawk == pre.squawk && post.on_ground == pre.on_ground, "[C14] a position report changes neither callsign nor velocity attributes");
-    vcover!(both && gp.is_some() && hv[0] <= range, "cover: a publication");
-    vcover!(both && gp.is_none(), "cover: an inconsistent pair");
 }
 
 /// identification report (C12, C14)
@@ -407,9 +407,8 @@ pub fn obl_action_other_me(s: &mut Src, ctx: &mut Ctx, df18: bool) {
 }
 
 /// frames of other downlink formats change nothing (the map is never touched)
-pub fn obl_action_non_es(s: &mut Src, ctx: &mut Ctx) {
+pub fn obl_action_non_es(s: &mut Src, ctx: &mut Ctx, which: u8) {
     let (pre, vacant) = setup_ghost(s, ctx, KA, false);
-    let which = s.u8() % 4;
     let frame = match which {
         0 => Frame { df: DF::AllCallReply { capability: Capability::AG_AIRBORNE, icao: KA, p_icao: KA }, crc: s.u32() },
         1 => Frame { df: DF::ExtendedQuitterMilitaryApplication { af: s.u8() & 7 }, crc: s.u32() },
